@@ -148,8 +148,20 @@ def _c08_adversarial(rng, n) -> List[Dict[str, Any]]:
     return scs
 
 
+PRE_OPS = ["freeze_features", "freeze_rf", "freeze_dilation", "train_net_only", "train_nas_only", "train_net_and_nas",
+           "summary", "cost", "continuous_cost", "discrete_cost", "train_mode_roundtrip", "export"]
+
+
+def _add_histories(scs, rng, frac=0.4):
+    """A random history of calls (trainability switches, observers, mode round trips) between writing the masks and
+    observing: none of them may change what the masked network computes, reports or exports."""
+    for sc in scs:
+        if rng.random() < frac:
+            sc["pre"] = [rng.choice(PRE_OPS) for _ in range(rng.randint(1, 4))]
+
+
 def _key(sc):
-    return {k: sc.get(k) for k in ("arch", "fold", "alive", "alpha", "tm", "tmraw", "costs")}
+    return {k: sc.get(k) for k in ("arch", "fold", "alive", "alpha", "tm", "tmraw", "costs", "pre")}
 
 
 def _nontrivial(sc) -> bool:
@@ -193,6 +205,14 @@ def run_family(pid: str, tier: str, seed: int, replay=None) -> int:
         R.design("MaskAlgebraMC", "MaskAlgebraMC_patterns_tap0", expect_ok=False)      # sanity: the pinned anchoring violates
         if pid == "C01":
             scs += _pattern_scenarios(pat, pid, rng, d0s=(1, 2, 3))
+            # non-saturated magnitudes (sums of 0.3 / 0.6 crossing the threshold): sample of the value-domain states
+            vals = pitgen.dump_states("MaskAlgebraMC", "MaskAlgebraMC_values_small", R)
+            vals = [v for v in vals if v["K"] >= 3]
+            rng.shuffle(vals)
+            vs = _pattern_scenarios(vals[: (400 if quick else 6000)], pid, rng, d0s=(1,))
+            for sc in vs:
+                sc["src"] = "tlc-values"
+            scs += vs
         else:
             # C08: every combination of fully-pruned vs open rf / dilation masks, K = 1..12 (the corners of the dump)
             corners = [s for s in pat if True]
@@ -265,6 +285,7 @@ def run_family(pid: str, tier: str, seed: int, replay=None) -> int:
     from ..archgen import norm_arch
     for sc in scs:
         sc["arch"] = norm_arch(sc["arch"])
+    _add_histories(scs, rng)
     import time as _t
     t0 = _t.time()
     traces = pitgen.run_scenarios(scs)
